@@ -64,8 +64,9 @@ def ensure_facts(config="default"):
         # keep the cache small: drop older entries
         base = os.path.join(CACHE, "facts")
         olds = sorted((os.path.getmtime(os.path.join(base, x)), x) for x in os.listdir(base))
-        for _, x in olds[:-24]:
-            if not x.endswith(".tmp"):
+        for mt, x in olds[:-24]:
+            # never an entry another run may still be reading (many trees analysed at once: self-test runners)
+            if not x.endswith(".tmp") and time.time() - mt > 2700:
                 shutil.rmtree(os.path.join(base, x), ignore_errors=True)
         for lf in os.listdir(CACHE):
             if lf.startswith("facts-") and lf.endswith(".lock") and time.time() - os.path.getmtime(os.path.join(CACHE, lf)) > 3600:
